@@ -178,7 +178,7 @@ def gen_guards():
                     cases.append('g rm %s %d %d %d' % (k, c, i, n))
                 cases.append('g idx %s %d %d' % (k, c, i))
                 cases.append('g rmback %s %d %d' % (k, c, i))
-            if k != 'sa':
+            if True:       # also SegmentedArray: only tiny counts or counts that trip the overflow guard (never a huge count that fits)
                 for i in (0, 1, c - 1 if c else 0, c, c + 1, -1):
                     for n in [0, 1, 2] + ([-1, -2, -c, -c + 1] if c >= 1 else []):
                         if n >= 0 or -n <= c:           # overflow-tripping counts only (a huge count that fits would run into bad_alloc)
